@@ -333,8 +333,12 @@ def pin(cons, rounds=3):
         keep = [a == b for a, b in pairs]
         new = []
         changed = False
+        n_ = len(pairs)
+        From = (z3.Ast * n_)(*[a.as_ast() for a, _ in pairs])
+        To = (z3.Ast * n_)(*[b.as_ast() for _, b in pairs])
+        ctx_ = pairs[0][0].ctx
         for c in cons:
-            c2 = z3.simplify(z3.substitute(c, *pairs))
+            c2 = z3.simplify(z3.BoolRef(z3.Z3_substitute(ctx_.ref(), c.as_ast(), n_, From, To), ctx_))
             if z3.is_true(c2):
                 continue
             if not c2.eq(c):
